@@ -174,5 +174,8 @@ def run(tier, seed):
     build.ir_many([dict(config=c, flavour="O0") for c in cfgs])
     tasks = []
     for cfg in cfgs: tasks += harnesses(rep, cfg, build.ir(cfg, "O0"))
+    # the hash-to-group wrappers RistrettoPoint::hash_from_bytes / from_hash (SHA-512 uninterpreted, linked ed25519-dalek IR): checks/c08s.py
+    from checks import c08s
+    tasks += c08s.hashmap_harnesses(rep, tier, "ris")
     run_tasks(tasks, rep)
     return rep
